@@ -140,7 +140,91 @@ fn dyn_value(k: u8, v: u32) -> (CqlValue, Ty) {
             }),
             Ty::List(Box::new(Ty::Tuple(vec![int, text]))),
         ),
-        _ => (V::Map(vec![(V::Text("k".into()), V::List(vec![V::BigInt(1), V::BigInt(2)]))]), Ty::Map(Box::new(text), Box::new(Ty::List(Box::new(Ty::Native(NativeType::BigInt)))))),
+        11 => (V::Map(vec![(V::Text("k".into()), V::List(vec![V::BigInt(1), V::BigInt(2)]))]), Ty::Map(Box::new(text), Box::new(Ty::List(Box::new(Ty::Native(NativeType::BigInt)))))),
+        // a three-field UDT column; the value names a field the type lacks, with FEWER / AS MANY / MORE fields than the type
+        12 => (
+            match v {
+                0 => udt(vec![("a", Some(V::Int(1))), ("b", Some(V::Text("x".into()))), ("c", Some(V::Int(3)))]),
+                1 => udt(vec![("a", Some(V::Int(1))), ("zzz", Some(V::Int(2)))]),
+                2 => udt(vec![("a", Some(V::Int(1))), ("b", Some(V::Text("x".into()))), ("x", Some(V::Int(3)))]),
+                _ => udt(vec![("a", Some(V::Int(1))), ("b", Some(V::Text("x".into()))), ("c", Some(V::Int(3))), ("x", Some(V::Int(4)))]),
+            },
+            udt_ty(&[("a", int.clone()), ("b", text.clone()), ("c", int.clone())]),
+        ),
+        // renamed / reordered / null-valued unknown fields
+        13 => (
+            match v {
+                0 => udt(vec![("c", Some(V::Int(3))), ("b", Some(V::Text("x".into()))), ("a", Some(V::Int(1)))]),
+                1 => udt(vec![("a", Some(V::Int(1))), ("B", Some(V::Text("x".into())))]),
+                2 => udt(vec![("a", None), ("q", None)]),
+                _ => udt(vec![("a", Some(V::Int(1))), ("a ", Some(V::Int(1)))]),
+            },
+            udt_ty(&[("a", int.clone()), ("b", text.clone()), ("c", int.clone())]),
+        ),
+        // the same at depth: list<udt>, tuple<int, udt>, udt in udt, map<int, udt>
+        14 => (
+            V::List(match v {
+                0 => vec![udt(vec![("a", Some(V::Int(1))), ("b", Some(V::Text("x".into())))]), udt(vec![("a", Some(V::Int(2)))])],
+                1 => vec![],
+                2 => vec![udt(vec![("a", Some(V::Int(1))), ("b", Some(V::Text("x".into())))]), udt(vec![("a", Some(V::Int(2))), ("x", Some(V::Int(3)))])],
+                _ => vec![udt(vec![("x", Some(V::Int(3)))])],
+            }),
+            Ty::List(Box::new(udt_ty(&[("a", int.clone()), ("b", text.clone()), ("c", int.clone())]))),
+        ),
+        15 => (
+            V::Tuple(match v {
+                0 => vec![Some(V::Int(1)), Some(udt(vec![("a", Some(V::Int(1))), ("b", Some(V::Text("x".into())))]))],
+                1 => vec![Some(V::Int(1))],
+                2 => vec![Some(V::Int(1)), Some(udt(vec![("a", Some(V::Int(1))), ("zzz", Some(V::Int(2)))]))],
+                _ => vec![None, Some(udt(vec![("a", Some(V::Int(1))), ("b", None), ("c", None), ("x", None)]))],
+            }),
+            Ty::Tuple(vec![int.clone(), udt_ty(&[("a", int.clone()), ("b", text.clone()), ("c", int.clone())])]),
+        ),
+        16 => {
+            let outer = |fields: Vec<(&str, Option<CqlValue>)>| V::UserDefinedType {
+                keyspace: "ks".into(),
+                name: "outer".into(),
+                fields: fields.into_iter().map(|(n, v)| (n.to_owned(), v)).collect(),
+            };
+            (
+                match v {
+                    0 => outer(vec![("u", Some(udt(vec![("a", Some(V::Int(1))), ("b", Some(V::Text("x".into())))]))), ("n", Some(V::Int(1)))]),
+                    1 => outer(vec![("n", Some(V::Int(1)))]),
+                    2 => outer(vec![("u", Some(udt(vec![("a", Some(V::Int(1))), ("x", Some(V::Int(2)))]))), ("n", Some(V::Int(1)))]),
+                    _ => outer(vec![("u", Some(udt(vec![("a", Some(V::Int(1)))]))), ("extra", Some(V::Int(1)))]),
+                },
+                Ty::Udt("ks".into(), "outer".into(), vec![("u".into(), udt_ty(&[("a", int.clone()), ("b", text.clone()), ("c", int.clone())])), ("n".into(), int.clone())]),
+            )
+        }
+        17 => (
+            V::Map(match v {
+                0 => vec![(V::Int(1), udt(vec![("a", Some(V::Int(1)))])), (V::Int(2), udt(vec![("b", Some(V::Text("x".into())))]))],
+                1 => vec![],
+                2 => vec![(V::Int(1), udt(vec![("a", Some(V::Int(1)))])), (V::Int(2), udt(vec![("a", Some(V::Int(1))), ("y", Some(V::Int(2)))]))],
+                _ => vec![(V::Int(1), udt(vec![("a", Some(V::Text("not an int".into())))]))],
+            }),
+            Ty::Map(Box::new(int.clone()), Box::new(udt_ty(&[("a", int.clone()), ("b", text.clone()), ("c", int.clone())]))),
+        ),
+        // a tuple value longer than the tuple type, at depth
+        18 => (
+            V::List(match v {
+                0 => vec![V::Tuple(vec![Some(V::Int(1)), Some(V::Text("a".into()))]), V::Tuple(vec![Some(V::Int(2))])],
+                1 => vec![V::Tuple(vec![None, None])],
+                2 => vec![V::Tuple(vec![Some(V::Int(1)), Some(V::Text("a".into()))]), V::Tuple(vec![Some(V::Int(2)), Some(V::Text("b".into())), Some(V::Int(3))])],
+                _ => vec![V::Tuple(vec![None, None, None])],
+            }),
+            Ty::List(Box::new(Ty::Tuple(vec![int.clone(), text.clone()]))),
+        ),
+        // a vector value of the wrong length, at depth
+        _ => (
+            V::Set(match v {
+                0 => vec![V::Vector(vec![V::Int(1), V::Int(2)]), V::Vector(vec![V::Int(3), V::Int(4)])],
+                1 => vec![],
+                2 => vec![V::Vector(vec![V::Int(1), V::Int(2)]), V::Vector(vec![V::Int(3)])],
+                _ => vec![V::Vector(vec![V::Int(1), V::Int(2), V::Int(3)])],
+            }),
+            Ty::Set(Box::new(Ty::Vector(Box::new(int.clone()), 2))),
+        ),
     }
 }
 
